@@ -11,17 +11,20 @@
    the real Tree classes and of VineCopula.fit with the recorded tau matrices / argsort / set orders, and
    the proved-sound validator [valid_vine] run on the implementation's own output).
 
-   What is NOT proved in general (and therefore only checked per run by the validator):
-   - proximity of regular vines at tree >= 4 and "no pair conditioned twice" for regular vines
-     (proved: trees 1..3 = Python's default truncated=3, [C16_regular_vine_three]; for deeper trees
-     [C16_regular_vine_sound] gives: spanning tree of the constraint graph, D = intersection,
-     conditioned pair = symmetric difference, whenever the construction returns);
-   - the k-th tree of a regular vine is NOT claimed to be a maximum spanning tree (tree.py fills
+   Regular vines are proved at EVERY level and truncation ([C16_regular_vine_all_levels]: the construction
+   always returns a RegularVine, the escape branch is never taken [C16_regular_escape_never],
+   _check_constraint IS the proximity condition [C16_regular_constraint_iff_proximity], no pair of variables
+   is conditioned twice [C16_regular_pairs_distinct]); the first tree is a MAXIMUM spanning tree of the
+   |tau| graph for NaN-free symmetric tau [C16_regular_first_is_mst] (counting argument: k distinct edges of
+   a forest touch >= k+1 nodes, coq/Spec/VineRegular4..6.v, VineMST.v).
+   What is NOT claimed:
+   - the k-th tree (k >= 2) of a regular vine is NOT claimed to be a maximum spanning tree (tree.py fills
      tau[i, j] with the tau of edge i alone, and only for is_adjacent pairs: finding F8). *)
 From Coq Require Import List Arith ZArith QArith Lia Bool Permutation.
 From Cop Require Import Lib.FinGraph Model.Vine Model.BivCtl Spec.VineDefs Spec.VineSets
      Spec.VineSort Spec.VineCenter Spec.VineDirect Spec.VineRegular
-     Spec.VinePySort Spec.VineValid Spec.VineRegular2 Spec.VinePairs Spec.VineRegular3 Spec.VineProofs.
+     Spec.VinePySort Spec.VineValid Spec.VineRegular2 Spec.VinePairs Spec.VineRegular3 Spec.VineProofs
+     Spec.VineMST Spec.VineRegular4 Spec.VineRegular5 Spec.VineRegular6.
 From CopRun Require Import Gen_bivq.
 Import ListNotations.
 Open Scope nat_scope.
@@ -313,6 +316,58 @@ Theorem C16_regular_third_tree :
     is_tree (n - 2) (par_graph T3) /\ (forall c : edge, In c T3 -> child_edge_ok 1 T2 c) /\ Uinv 4 T3.
 Proof. exact regular_third_tree_ok. Qed.
 
+
+(* ================= regular vines at EVERY level (no bound on d, on the truncation, on the tau matrices) ============ *)
+Theorem C16_regular_vine_all_levels :
+  forall (d t : nat) (taus : nat -> tmat) (order : list (nat * nat) -> list (nat * nat)),
+  perm_fun order ->
+  d >= 2 ->
+  exists v : list (list edge),
+    train_vine_opt Regular d t taus order = Some v /\
+    train_vine Regular d t taus order = v /\ RegularVine Regular d t v.
+Proof. exact regular_vine_regular_all_levels. Qed.
+
+Theorem C16_regular_vine_all_levels_gen :
+  forall (tie : tie_t) (sel : sel_t) (d t : nat) (taus : nat -> tmat) (order : list (nat * nat) -> list (nat * nat)),
+  sel_in sel -> sel_some sel -> perm_fun order -> d >= 2 ->
+  exists v : list (list edge), train_vine_gen_opt tie sel Regular d t taus order = Some v /\ RegularVine Regular d t v.
+Proof. exact regular_vine_regular_gen. Qed.
+
+(* the "no admissible edge" escape branch of _build_kth_tree is dead code for vines built by train_vine *)
+Theorem C16_regular_escape_never :
+  forall (d t : nat) (taus : nat -> tmat) (order : list (nat * nat) -> list (nat * nat))
+         (k : nat) (Tp T : list edge) (v : list (list edge)),
+  perm_fun order -> d >= 2 -> train_vine_opt Regular d t taus order = Some v ->
+  nth_error v k = Some Tp -> nth_error v (S k) = Some T ->
+  snd (regular_kth_run pick_py (length Tp - 1) (k + 2) (length Tp) (taus (S k)) Tp order) = Done.
+Proof. exact regular_escape_never. Qed.
+
+(* Tree._check_constraint decides exactly the proximity condition, at every level of a fitted regular vine *)
+Theorem C16_regular_constraint_iff_proximity :
+  forall (d t : nat) (taus : nat -> tmat) (order : list (nat * nat) -> list (nat * nat))
+         (v : list (list edge)) (k : nat) (T : list edge) (s s' : nat) (a b : edge),
+  perm_fun order -> d >= 2 -> train_vine_opt Regular d t taus order = Some v ->
+  nth_error v k = Some T -> nth_error T s = Some a -> nth_error T s' = Some b -> s <> s' ->
+  (check_constraint (k + 2) a b = true <-> share_node k a b).
+Proof. exact regular_constraint_iff_proximity. Qed.
+
+Theorem C16_regular_pairs_distinct :
+  forall (d t : nat) (taus : nat -> tmat) (order : list (nat * nat) -> list (nat * nat)),
+  perm_fun order -> d >= 2 ->
+  exists v : list (list edge),
+    train_vine_opt Regular d t taus order = Some v /\
+    NoDup (map (fun e => (e_L e, e_R e)) (concat v)).
+Proof. exact regular_pairs_distinct. Qed.
+
+(* Prim's algorithm on |tau|: the first tree has maximal total |tau| among ALL spanning trees *)
+Theorem C16_regular_first_is_mst :
+  forall (n : nat) (tau : tmat) (order : list (nat * nat) -> list (nat * nat)),
+  perm_fun order -> n >= 1 -> tau_nonan n tau -> tau_sym n tau ->
+  spanning_tree n (graph1 (regular_first n tau order)) /\
+  forall g : graph, spanning_tree n g ->
+    (tau_weight tau g <= tau_weight tau (graph1 (regular_first n tau order)))%Q.
+Proof. exact regular_first_is_mst_py. Qed.
+
 (* ================= child edges: conditioned / conditioning sets ================= *)
 Theorem C16_child_sets :
   forall (idx : nat) (lp rp : nat * edge) (c : edge),
@@ -488,6 +543,12 @@ Print Assumptions C16_regular_kth_progress.
 Print Assumptions C16_regular_kth_sound.
 Print Assumptions C16_regular_vine_sound.
 Print Assumptions C16_regular_vine_three.
+Print Assumptions C16_regular_vine_all_levels.
+Print Assumptions C16_regular_vine_all_levels_gen.
+Print Assumptions C16_regular_escape_never.
+Print Assumptions C16_regular_constraint_iff_proximity.
+Print Assumptions C16_regular_pairs_distinct.
+Print Assumptions C16_regular_first_is_mst.
 Print Assumptions C16_child_sets.
 Print Assumptions C16_constraint_of_proximity.
 Print Assumptions C16_constraint_is_proximity_level2.
